@@ -16,6 +16,8 @@ use surf_n_term::{
 // ---------- a terminal that only reports size and capabilities ----------
 pub struct NullTerm {
     pub caps: TerminalCaps,
+    /// pixels per cell (height, width)
+    pub ppc: (usize, usize),
 }
 
 impl std::io::Write for NullTerm {
@@ -44,7 +46,7 @@ impl Terminal for NullTerm {
         self
     }
     fn size(&self) -> Result<TerminalSize, Error> {
-        Ok(TerminalSize { cells: Size::new(24, 80), pixels: Size::new(24 * PPC_H, 80 * PPC_W) })
+        Ok(TerminalSize { cells: Size::new(24, 80), pixels: Size::new(24 * self.ppc.0, 80 * self.ppc.1) })
     }
     fn position(&mut self) -> Result<Position, Error> {
         Ok(Position::origin())
@@ -59,7 +61,11 @@ impl Terminal for NullTerm {
 }
 
 pub fn mk_ctx(glyphs: bool) -> ViewContext {
-    let term = NullTerm { caps: TerminalCaps { glyphs, ..TerminalCaps::default() } };
+    mk_ctx_ppc(glyphs, PPC_H, PPC_W)
+}
+
+pub fn mk_ctx_ppc(glyphs: bool, ppc_h: usize, ppc_w: usize) -> ViewContext {
+    let term = NullTerm { caps: TerminalCaps { glyphs, ..TerminalCaps::default() }, ppc: (ppc_h, ppc_w) };
     ViewContext::new(&term).expect("ctx")
 }
 
@@ -159,7 +165,9 @@ impl Defs {
                     .collect()
             })
             .unwrap_or_default();
-        Defs { glyphs, images, ctx: mk_ctx(input["glyphs"].as_bool().unwrap_or(true)) }
+        let ppc = vusizes(&input["ppc"]);
+        let ctx = if ppc.len() == 2 { mk_ctx_ppc(input["glyphs"].as_bool().unwrap_or(true), ppc[0], ppc[1]) } else { mk_ctx(input["glyphs"].as_bool().unwrap_or(true)) };
+        Defs { glyphs, images, ctx }
     }
 
     pub fn kind_coq(&self, cell: &Cell) -> String {
@@ -325,6 +333,59 @@ struct WOut {
     cur: (usize, usize),
 }
 
+/// the operations a client can apply to the writer itself (also through `adapter.parent()`)
+fn apply_simple(w: &mut surf_n_term::render::TerminalWriter<'_>, defs: &Defs, op: &Value) -> bool {
+    match op["o"].as_str().unwrap_or("") {
+        "char" => w.put_char(char::from_u32(op["c"].as_u64().unwrap_or(63) as u32).unwrap_or('?')),
+        "cell" => w.put_cell(defs.cell_from(op)),
+        "face" => {
+            w.set_face(face_from(&op["face"]));
+            true
+        }
+        "wraps" => {
+            w.set_wraps(op["b"].as_bool().unwrap_or(true));
+            true
+        }
+        "cursor" => {
+            w.set_cursor(Position::new(op["r"].as_u64().unwrap_or(0) as usize, op["c"].as_u64().unwrap_or(0) as usize));
+            true
+        }
+        "text" => {
+            // put_text: a Text holding exactly these cells (Text::put_cell under the default face keeps them)
+            let text: Text = op["cells"].as_array().cloned().unwrap_or_default().iter().map(|c| defs.cell_from(c)).collect();
+            w.put_text(&text);
+            true
+        }
+        _ => true,
+    }
+}
+
+/// items of a session: byte chunks (Ok) and parent operations (Err); mode 1 joins adjacent chunks,
+/// mode 2 hands every byte in a call of its own
+fn session_items(op: &Value, mode: u8) -> Vec<Result<Vec<u8>, Value>> {
+    let mut out: Vec<Result<Vec<u8>, Value>> = vec![];
+    for it in op["items"].as_array().cloned().unwrap_or_default() {
+        if it["b"].is_array() {
+            let b = vbytes(&it["b"]);
+            match mode {
+                1 => match out.last_mut() {
+                    Some(Ok(prev)) => prev.extend(b),
+                    _ => out.push(Ok(b)),
+                },
+                2 => out.extend(b.iter().map(|x| Ok(vec![*x]))),
+                _ => out.push(Ok(b)),
+            }
+        } else {
+            out.push(Err(it));
+        }
+    }
+    out
+}
+
+fn session_bytes(op: &Value) -> Vec<u8> {
+    op["items"].as_array().map(|a| a.iter().filter(|i| i["b"].is_array()).flat_map(|i| vbytes(&i["b"])).collect()).unwrap_or_default()
+}
+
 fn run_program(defs: &Defs, len: usize, shape: Shape, ops: &[Value], mode: u8) -> WOut {
     let mut data = canvas(len);
     let mut flags = vec![];
@@ -334,19 +395,43 @@ fn run_program(defs: &Defs, len: usize, shape: Shape, ops: &[Value], mode: u8) -
         let mut w = surf.writer(&defs.ctx);
         for op in ops {
             match op["o"].as_str().unwrap_or("") {
-                "char" => flags.push(w.put_char(char::from_u32(op["c"].as_u64().unwrap_or(63) as u32).unwrap_or('?'))),
-                "cell" => flags.push(w.put_cell(defs.cell_from(op))),
-                "face" => {
-                    w.set_face(face_from(&op["face"]));
-                    flags.push(true)
-                }
-                "wraps" => {
-                    w.set_wraps(op["b"].as_bool().unwrap_or(true));
-                    flags.push(true)
-                }
-                "cursor" => {
-                    w.set_cursor(Position::new(op["r"].as_u64().unwrap_or(0) as usize, op["c"].as_u64().unwrap_or(0) as usize));
-                    flags.push(true)
+                "char" | "cell" | "face" | "wraps" | "cursor" | "text" => flags.push(apply_simple(&mut w, defs, op)),
+                "sess" => {
+                    // ONE adapter for the whole session; parent() used between its writes
+                    let items = session_items(op, mode);
+                    let mut ok = true;
+                    if op["via"].as_str() == Some("tty") {
+                        let mut tw = CellWrite::by_ref(&mut w).tty_writer();
+                        for it in &items {
+                            match it {
+                                Ok(b) => {
+                                    if tw.write(b).is_err() {
+                                        ok = false;
+                                        break;
+                                    }
+                                }
+                                Err(p) => {
+                                    apply_simple(tw.parent(), defs, p);
+                                }
+                            }
+                        }
+                    } else {
+                        let mut uw = CellWrite::by_ref(&mut w).utf8_writer();
+                        for it in &items {
+                            match it {
+                                Ok(b) => {
+                                    if uw.write(b).is_err() {
+                                        ok = false;
+                                        break;
+                                    }
+                                }
+                                Err(p) => {
+                                    apply_simple(uw.parent(), defs, p);
+                                }
+                            }
+                        }
+                    }
+                    flags.push(ok)
                 }
                 "fmt" => {
                     // put_fmt: optional face for the duration of the call, text through utf8_writer()
@@ -403,6 +488,18 @@ fn run_program(defs: &Defs, len: usize, shape: Shape, ops: &[Value], mode: u8) -
     WOut { canvas: nums, flags, cur }
 }
 
+fn pop_coq(defs: &Defs, op: &Value) -> String {
+    match op["o"].as_str().unwrap_or("") {
+        "char" => format!("(PChar {})", op["c"].as_u64().unwrap_or(63)),
+        "cell" => format!("(PCell {})", defs.cell_coq(&defs.cell_from(op))),
+        "face" => format!("(PFace {})", face_coq(&face_from(&op["face"]))),
+        "wraps" => format!("(PWraps {})", cbool(op["b"].as_bool().unwrap_or(true))),
+        "cursor" => format!("(PCursor {} {})", cnat(op["r"].as_u64().unwrap_or(0) as usize), cnat(op["c"].as_u64().unwrap_or(0) as usize)),
+        "text" => format!("(PText {})", clist(op["cells"].as_array().cloned().unwrap_or_default().iter().map(|c| defs.cell_coq(&defs.cell_from(c))))),
+        _ => "(PWraps true)".to_string(),
+    }
+}
+
 fn op_coq(defs: &Defs, op: &Value) -> String {
     match op["o"].as_str().unwrap_or("") {
         "fmt" => {
@@ -412,6 +509,21 @@ fn op_coq(defs: &Defs, op: &Value) -> String {
             let cur = face_from(&op["cur"]);
             let during = if op["face"].is_object() { face_from(&op["face"]) } else { cur };
             format!("(OFace {}); (OWriteU [{}]); (OFace {})", face_coq(&during), cbytes(text.as_bytes()), face_coq(&cur))
+        }
+        "text" => format!("(OText {})", clist(op["cells"].as_array().cloned().unwrap_or_default().iter().map(|c| defs.cell_coq(&defs.cell_from(c))))),
+        "sess" => {
+            let items = clist(op["items"].as_array().cloned().unwrap_or_default().iter().map(|it| {
+                if it["b"].is_array() {
+                    format!("(SBytes {})", cbytes(&vbytes(&it["b"])))
+                } else {
+                    format!("(SParent {})", pop_coq(defs, it))
+                }
+            }));
+            if op["via"].as_str() == Some("tty") {
+                format!("(OSessT {})", items)
+            } else {
+                format!("(OSessU {})", items)
+            }
         }
         "char" => format!("(OChar {})", op["c"].as_u64().unwrap_or(63)),
         "cell" => format!("(OCell {})", defs.cell_coq(&defs.cell_from(op))),
@@ -521,6 +633,21 @@ fn sgr_table(ops: &[Value]) -> String {
         if op["o"] == "face" {
             faces.push(face_from(&op["face"]));
         }
+        if op["o"] == "sess" {
+            for it in op["items"].as_array().cloned().unwrap_or_default() {
+                if it["o"] == "face" {
+                    faces.push(face_from(&it["face"]));
+                }
+            }
+            if op["via"].as_str() == Some("tty") {
+                // a sequence may be completed across a parent operation
+                for s in sgr_seqs(&session_bytes(op)) {
+                    if !seqs.contains(&s) {
+                        seqs.push(s);
+                    }
+                }
+            }
+        }
         if op["o"] == "write" && op["via"].as_str() == Some("tty") {
             let bytes: Vec<u8> = op["chunks"].as_array().map(|a| a.iter().flat_map(vbytes).collect()).unwrap_or_default();
             for s in sgr_seqs(&bytes) {
@@ -601,6 +728,9 @@ fn run_w(input: &Value) -> Case {
         .flat_map(|o| o["chunks"].as_array().map(|a| a.iter().flat_map(vbytes).collect::<Vec<u8>>()).unwrap_or_default())
         .collect();
     decode_lenient(&own_bytes, &mut chars);
+    for o in ops.iter().filter(|o| o["o"] == "sess") {
+        decode_lenient(&session_bytes(o), &mut chars);
+    }
     {
         let mut cur = json!({"fg": null, "bg": null, "attrs": 0});
         for o in ops.iter_mut() {
@@ -633,7 +763,7 @@ fn run_w(input: &Value) -> Case {
         sgr_table(&ops),
         clist(ops.iter().map(|o| op_coq(&defs, o)))
     );
-    let fmt_with_tty = ops.iter().any(|o| o["o"] == "fmt") && ops.iter().any(|o| o["via"].as_str() == Some("tty"));
+    let fmt_with_tty = ops.iter().any(|o| o["o"] == "fmt") && ops.iter().any(|o| o["via"].as_str() == Some("tty") || o["o"] == "sess");
     assert!(!fmt_with_tty, "generator invariant: fmt is not mixed with tty writes (the face before fmt must be known statically)");
     let mut j = input.clone();
     let res = |r: &Option<WOut>| match r {
@@ -650,7 +780,8 @@ fn run_w(input: &Value) -> Case {
         Some(o) => json!({"canvas": o.canvas, "flags": o.flags, "cursor": [o.cur.0, o.cur.1], "shape": [shape.start, shape.end, shape.width, shape.height, shape.row_stride, shape.col_stride]}),
         None => json!("panic"),
     };
-    let multi = ops.iter().any(|o| o["o"] == "write" && o["chunks"].as_array().map(|a| a.len() >= 2).unwrap_or(false));
+    let multi = ops.iter().any(|o| o["o"] == "write" && o["chunks"].as_array().map(|a| a.len() >= 2).unwrap_or(false))
+        || ops.iter().any(|o| o["o"] == "sess" && o["items"].as_array().map(|a| a.iter().filter(|i| i["b"].is_array()).count() >= 2).unwrap_or(false));
     let special = chars.iter().any(|c| {
         *c == 9 || *c == 10 || char::from_u32(*c).map(|ch| Cell::new_char(Face::default(), ch).size(&defs.ctx).width != 1).unwrap_or(false)
     }) || ops.iter().any(|o| o["o"] == "cell" && o["kind"]["t"] != "c");
@@ -661,6 +792,8 @@ fn run_w(input: &Value) -> Case {
         format!("area={}", if area == 0 { "0" } else if area < 4 { "1-3" } else { "4+" }),
         format!("multi_chunk={}", multi),
         format!("tty={}", ops.iter().any(|o| o["via"].as_str() == Some("tty"))),
+        format!("session={}", ops.iter().any(|o| o["o"] == "sess")),
+        format!("put_text={}", ops.iter().any(|o| o["o"] == "text" || (o["o"] == "sess" && o["items"].as_array().map(|a| a.iter().any(|i| i["o"] == "text")).unwrap_or(false)))),
         format!("glyphs={}", input["glyphs"].as_bool().unwrap_or(true)),
     ];
     Case { coq: format!("{} {} {} {}", head, res(&r1), res(&r2), res(&r3)), json: j, tags, nontrivial: area >= 2 && area < len && (multi || special) }
@@ -829,9 +962,167 @@ fn run_t(input: &Value) -> Case {
     Case { coq, json: j, tags, nontrivial }
 }
 
+// ---------- Text deserialised from JSON ----------
+fn jface_str(v: &Value) -> String {
+    let mut parts = vec![];
+    if let Some(c) = v["fg"].as_u64() {
+        parts.push(format!("fg=#{:06x}", c >> 8));
+    }
+    if let Some(c) = v["bg"].as_u64() {
+        parts.push(format!("bg=#{:06x}", c >> 8));
+    }
+    for (name, on) in [("bold", v["bold"].as_bool()), ("italic", v["italic"].as_bool()), ("underline", v["underline"].as_bool())] {
+        if on == Some(true) {
+            parts.push(name.to_string());
+        }
+    }
+    parts.join(",")
+}
+
+/// the document handed to the library
+fn jdoc(node: &Value) -> Value {
+    match node["t"].as_str().unwrap_or("") {
+        "s" => json!(vusizes(&node["s"]).iter().filter_map(|c| char::from_u32(*c as u32)).collect::<String>()),
+        "a" => Value::Array(node["items"].as_array().cloned().unwrap_or_default().iter().map(jdoc).collect()),
+        _ => {
+            let mut m = serde_json::Map::new();
+            if node["face"].is_object() {
+                m.insert("face".to_string(), json!(jface_str(&node["face"])));
+            }
+            if let Some(b) = node["wraps"].as_bool() {
+                m.insert("wraps".to_string(), json!(b));
+            }
+            if node["glyph"].is_object() {
+                let g = &node["glyph"];
+                let fb: String = vusizes(&g["fb"]).iter().filter_map(|c| char::from_u32(*c as u32)).collect();
+                m.insert("glyph".to_string(), json!({"path": "M0,0L1,1L1,0Z", "size": {"height": g["h"], "width": g["w"]}, "fallback": fb}));
+            }
+            if !node["text"].is_null() {
+                m.insert("text".to_string(), jdoc(&node["text"]));
+            }
+            Value::Object(m)
+        }
+    }
+}
+
+/// the document as the model sees it: faces as the crate's own Face parser reads them (their syntax is
+/// not C09's subject)
+fn jcoq(node: &Value) -> String {
+    match node["t"].as_str().unwrap_or("") {
+        "s" => format!("(JStr {})", clist(vusizes(&node["s"]).iter().map(|c| c.to_string()))),
+        "a" => format!("(JArr {})", clist(node["items"].as_array().cloned().unwrap_or_default().iter().map(jcoq))),
+        _ => {
+            let face = if node["face"].is_object() {
+                let f: Face = jface_str(&node["face"]).parse().unwrap_or_default();
+                format!("(Some {})", face_coq(&f))
+            } else {
+                "None".to_string()
+            };
+            let wr = match node["wraps"].as_bool() {
+                Some(b) => format!("(Some {})", cbool(b)),
+                None => "None".to_string(),
+            };
+            let body = if node["glyph"].is_object() {
+                let g = &node["glyph"];
+                format!(
+                    "(JBGlyph (KGlyph 999 {} {} {}))",
+                    cnat(g["h"].as_u64().unwrap_or(1) as usize),
+                    cnat(g["w"].as_u64().unwrap_or(1) as usize),
+                    clist(vusizes(&g["fb"]).iter().map(|c| c.to_string()))
+                )
+            } else if !node["text"].is_null() {
+                format!("(JBText {})", jcoq(&node["text"]))
+            } else {
+                "JBNone".to_string()
+            };
+            format!("(JObj {} {} {})", face, wr, body)
+        }
+    }
+}
+
+fn run_j(input: &Value) -> Case {
+    let defs = Defs::new(&json!({"glyph_defs": [], "image_defs": [], "glyphs": true}));
+    let doc = jdoc(&input["doc"]);
+    let res = catch(std::panic::AssertUnwindSafe(|| serde_json::from_value::<Text>(doc.clone()).ok().map(|t| (t.cells().to_vec(), t.wraps(), t.face()))));
+    let mut j = input.clone();
+    j["json"] = doc;
+    let (coq_res, ncells) = match &res {
+        Some(Some((cells, wraps, face))) => {
+            j["impl"] = json!({"cells": cells.len(), "wraps": wraps});
+            (format!("(JRes {} {} {})", clist(cells.iter().map(|c| defs.cell_coq(c))), cbool(*wraps), face_coq(face)), cells.len())
+        }
+        Some(None) => {
+            j["impl"] = json!("error");
+            ("JError".to_string(), 0)
+        }
+        None => {
+            j["impl"] = json!("panic");
+            ("JPanic".to_string(), 0)
+        }
+    };
+    fn depth(n: &Value) -> usize {
+        match n["t"].as_str().unwrap_or("") {
+            "s" => 0,
+            "a" => 1 + n["items"].as_array().map(|a| a.iter().map(depth).max().unwrap_or(0)).unwrap_or(0),
+            _ => 1 + if n["text"].is_null() { 0 } else { depth(&n["text"]) },
+        }
+    }
+    let d = depth(&input["doc"]);
+    let tags = vec!["kind=json_text".to_string(), format!("json_depth={}", d.min(4)), format!("json_cells={}", if ncells == 0 { "0" } else if ncells < 4 { "1-3" } else { "4+" })];
+    Case { coq: format!("CJ {} {}", jcoq(&input["doc"]), coq_res), json: j, tags, nontrivial: d >= 2 && ncells >= 2 }
+}
+
+fn gen_jface(rng: &mut Rng) -> Value {
+    let col = |rng: &mut Rng| -> Value {
+        if rng.chance(1, 2) {
+            Value::Null
+        } else {
+            json!(((rng.below(256) << 24) | (rng.below(256) << 16) | (rng.below(256) << 8) | 255) as u64)
+        }
+    };
+    json!({"fg": col(rng), "bg": col(rng), "bold": rng.chance(1, 3), "italic": rng.chance(1, 4), "underline": rng.chance(1, 5)})
+}
+
+fn gen_jtext(rng: &mut Rng, depth: usize) -> Value {
+    match rng.below(if depth == 0 { 1 } else { 6 }) {
+        0 => {
+            let n = rng.below(4) as usize;
+            json!({"t": "s", "s": (0..n).map(|_| gen_char(rng, true)).collect::<Vec<u32>>()})
+        }
+        1 | 2 => {
+            let n = rng.below(4) as usize;
+            json!({"t": "a", "items": (0..n).map(|_| gen_jtext(rng, depth - 1)).collect::<Vec<Value>>()})
+        }
+        _ => {
+            let mut o = json!({"t": "o"});
+            if rng.chance(2, 3) {
+                o["face"] = gen_jface(rng);
+            }
+            if rng.chance(1, 4) {
+                o["wraps"] = json!(rng.chance(1, 2));
+            }
+            if rng.chance(1, 5) {
+                o["glyph"] = json!({"h": 1 + rng.below(2), "w": 1 + rng.below(3), "fb": (0..rng.below(3)).map(|_| gen_char(rng, false)).collect::<Vec<u32>>()});
+            }
+            // a glyph object may carry a "text" too: the glyph wins and the text is not visited
+            if rng.chance(4, 5) {
+                o["text"] = gen_jtext(rng, depth - 1);
+            }
+            o
+        }
+    }
+}
+
+fn gen_j(rng: &mut Rng, v: &mut Vec<Value>) {
+    let d = 1 + rng.below(4) as usize;
+    v.push(json!({"k": "j", "doc": gen_jtext(rng, d)}));
+}
+
 pub fn run(input: &Value) -> Case {
     if input["k"].as_str() == Some("t") {
         run_t(input)
+    } else if input["k"].as_str() == Some("j") {
+        run_j(input)
     } else {
         run_w(input)
     }
@@ -1070,7 +1361,44 @@ fn gen_w(rng: &mut Rng, v: &mut Vec<Value>) {
     if rng.chance(1, 4) {
         ops.push(json!({"o": "wraps", "b": false}));
     }
+    // cases with sessions (one adapter, parent() between its writes) carry no put_fmt: the face
+    // before put_fmt must be known statically, a failed session leaves it open
+    let sess_case = rng.chance(1, 3);
+    let tty_case = tty_case || (sess_case && rng.chance(1, 2));
+    let gen_simple = |rng: &mut Rng| -> Value {
+        match rng.below(7) {
+            0 | 1 => json!({"o": "char", "c": gen_char(rng, true)}),
+            2 => {
+                let mut c = gen_cell(rng, ng, ni, true);
+                c["o"] = json!("cell");
+                c
+            }
+            3 => json!({"o": "face", "face": gen_face_plain_underline(rng)}),
+            4 => json!({"o": "wraps", "b": rng.chance(1, 2)}),
+            5 => json!({"o": "cursor", "r": rng.below(5), "c": rng.below(7)}),
+            _ => json!({"o": "text", "cells": (0..rng.below(4)).map(|_| gen_cell(rng, ng, ni, true)).collect::<Vec<Value>>()}),
+        }
+    };
     for _ in 0..nops {
+        if sess_case && rng.chance(1, 2) {
+            // the bytes of one stream cut anywhere (inside characters and escape sequences too), parent
+            // operations dropped between some of the pieces
+            let via_tty = tty_case && rng.chance(2, 3);
+            let b = if via_tty { gen_tty_bytes(rng, 6) } else { gen_bytes(rng, 6) };
+            let mut items = vec![];
+            for c in random_cuts(rng, &b) {
+                items.push(json!({"b": jbytes(&c)}));
+                if rng.chance(1, 2) {
+                    items.push(gen_simple(rng));
+                }
+            }
+            ops.push(json!({"o": "sess", "via": if via_tty { "tty" } else { "utf8" }, "items": items}));
+            continue;
+        }
+        if rng.chance(1, 10) {
+            ops.push(json!({"o": "text", "cells": (0..rng.below(5)).map(|_| gen_cell(rng, ng, ni, true)).collect::<Vec<Value>>()}));
+            continue;
+        }
         ops.push(match rng.below(12) {
             0..=2 => json!({"o": "char", "c": gen_char(rng, true)}),
             3..=5 => {
@@ -1079,7 +1407,7 @@ fn gen_w(rng: &mut Rng, v: &mut Vec<Value>) {
                 c
             }
             6 => json!({"o": "face", "face": if tty_case { gen_face_plain_underline(rng) } else { gen_face(rng) }}),
-            8 if !tty_case => {
+            8 if !tty_case && !sess_case => {
                 let n = rng.below(6) as usize;
                 let chars: Vec<u32> = (0..n).map(|_| gen_char(rng, true)).collect();
                 json!({"o": "fmt", "s": chars, "face": if rng.chance(1, 2) { gen_face(rng) } else { Value::Null }})
@@ -1146,7 +1474,9 @@ fn gen_t(rng: &mut Rng, v: &mut Vec<Value>) {
 pub fn generate(rng: &mut Rng, n: usize, _tier: &str) -> Vec<Value> {
     let mut v = vec![];
     while v.len() < n {
-        if rng.chance(1, 2) {
+        if rng.chance(1, 10) {
+            gen_j(rng, &mut v);
+        } else if rng.chance(1, 2) {
             gen_t(rng, &mut v);
         } else {
             gen_w(rng, &mut v);
